@@ -23,6 +23,14 @@ Alt = Tuple[Item, ...]
 
 
 @dataclass
+class ListLang:
+    """A list of strings under construction: its elements' language, and whether it may be empty."""
+    elem: Optional["Lang"]
+    optional: bool = True
+    chars: Optional["Lang"] = None     # a character map of str(x): the joined result is this language
+
+
+@dataclass
 class Lang:
     alts: List[Alt]
 
@@ -142,12 +150,20 @@ class StrAbs:
             if isinstance(st, ast.Assign) and len(st.targets) == 1:
                 t = st.targets[0]
                 if isinstance(t, ast.Name):
+                    if isinstance(st.value, ast.List) and not st.value.elts:
+                        env[t.id] = ListLang(None)  # type: ignore[assignment]
+                        continue
                     try:
                         env[t.id] = self.expr(fi, st.value, env, at)
                     except NotString:
                         env.pop(t.id, None)
                 continue
             if isinstance(st, ast.AnnAssign):
+                if isinstance(st.target, ast.Name) and isinstance(st.value, ast.List) and not st.value.elts:
+                    env[st.target.id] = ListLang(None)  # type: ignore[assignment]
+                continue
+            if isinstance(st, ast.For):
+                self._for(fi, st, env, at)
                 continue
             if isinstance(st, ast.Try):
                 # both the body and the handlers may run; string functions here use try only for non-string locals
@@ -167,10 +183,16 @@ class StrAbs:
                 res = l if res is None else (res | l)
                 return res, env
             if isinstance(st, ast.Assign) and len(st.targets) == 1 and isinstance(st.targets[0], ast.Name):
+                if isinstance(st.value, ast.List) and not st.value.elts:
+                    env[st.targets[0].id] = ListLang(None)  # type: ignore[assignment]
+                    continue
                 try:
                     env[st.targets[0].id] = self.expr(fi, st.value, env, at)
                 except NotString:
                     env.pop(st.targets[0].id, None)
+                continue
+            if isinstance(st, ast.For):
+                self._for(fi, st, env, at)
                 continue
             if isinstance(st, ast.Raise):
                 return res, env
@@ -187,6 +209,47 @@ class StrAbs:
             raise AnalysisError(f"{fi.qual}: statement {type(st).__name__} outside the string abstraction at line {st.lineno}")
         return res, env
 
+    def _for(self, fi: FuncInfo, st: ast.For, env: Dict[str, Any], at: Dict[str, str]) -> None:
+        """for x in seq: [if c:] L.append(<string expr>)   -> L holds a repetition of that language"""
+        local = dict(env)
+
+        def walk(stmts: List[ast.stmt], optional: bool) -> None:
+            for b in stmts:
+                if isinstance(b, ast.Expr) and isinstance(b.value, ast.Call) and isinstance(b.value.func, ast.Attribute) \
+                        and b.value.func.attr == "append" and isinstance(b.value.func.value, ast.Name) and len(b.value.args) == 1:
+                    name = b.value.func.value.id
+                    cur = env.get(name)
+                    if not isinstance(cur, ListLang):
+                        raise AnalysisError(f"{fi.qual}: append to `{name}`, which is not a fresh list, at line {b.lineno}")
+                    arg = b.value.args[0]
+                    it = st.iter
+                    if isinstance(arg, ast.Subscript) and ast.unparse(arg.value) == "SUPERSCRIPTS" and isinstance(it, ast.Call) \
+                            and ast.unparse(it.func) == "str" and len(it.args) == 1:
+                        g = ast.GeneratorExp(elt=arg, generators=[ast.comprehension(target=st.target, iter=it, ifs=[], is_async=0)])
+                        cur.chars = self.charmap(fi, g, local, at)
+                        continue
+                    if isinstance(arg, ast.Subscript):
+                        raise NotString()
+                    e = self.expr(fi, arg, local, at)
+                    cur.elem = e if cur.elem is None else (cur.elem | e)
+                    cur.optional = cur.optional and optional if cur.elem is not e else optional
+                elif isinstance(b, ast.If):
+                    walk(b.body, True)
+                    walk(b.orelse, True)
+                elif isinstance(b, ast.Assign) and len(b.targets) == 1 and isinstance(b.targets[0], ast.Name):
+                    try:
+                        local[b.targets[0].id] = self.expr(fi, b.value, local, at)
+                    except NotString:
+                        local.pop(b.targets[0].id, None)
+                elif isinstance(b, (ast.Pass, ast.Continue)):
+                    continue
+                else:
+                    raise AnalysisError(f"{fi.qual}: statement {type(b).__name__} in a loop outside the string abstraction at line {b.lineno}")
+        try:
+            walk(st.body, False)
+        except NotString:
+            return
+
     @staticmethod
     def _always_returns(stmts: List[ast.stmt]) -> bool:
         return bool(stmts) and isinstance(stmts[-1], (ast.Return, ast.Raise))
@@ -196,7 +259,10 @@ class StrAbs:
         out = {}
         for k in set(a) | set(b):
             if k in a and k in b:
-                out[k] = a[k] | b[k]
+                if isinstance(a[k], Lang) and isinstance(b[k], Lang):
+                    out[k] = a[k] | b[k]
+                else:
+                    out[k] = a[k]
             else:
                 out[k] = a.get(k) or b[k]
         return out
@@ -239,7 +305,7 @@ class StrAbs:
             b = self.expr(fi, e.values[1], env, at)
             return a.nonempty_part() | b if a.may_be_empty() else a
         if isinstance(e, ast.Name):
-            if e.id in env:
+            if e.id in env and isinstance(env[e.id], Lang):
                 return env[e.id]
             return self.to_str(fi, e, env, at, already_str=True)
         if isinstance(e, ast.Attribute):
@@ -254,6 +320,14 @@ class StrAbs:
                     raise AnalysisError(f"{fi.qual}: join with a non-literal separator")
                 sep = "".join(it[1] for it in sepl.alts[0])
                 g = e.args[0]
+                if isinstance(g, ast.Name) and isinstance(env.get(g.id), ListLang):
+                    ll = env[g.id]
+                    if ll.chars is not None:
+                        return ll.chars   # type: ignore[return-value]
+                    if ll.elem is None:
+                        return Lang([()])
+                    rep = Lang([(("rep", ll.elem, sep),)])
+                    return (rep | Lang([()])) if ll.optional else rep
                 if isinstance(g, (ast.GeneratorExp, ast.ListComp)) and len(g.generators) == 1:
                     gen = g.generators[0]
                     it_types = self.types(fi, gen.iter)
@@ -307,7 +381,7 @@ class StrAbs:
 
     def to_str(self, fi: FuncInfo, e: ast.AST, env: Dict[str, Lang], at: Dict[str, str], already_str: bool = False) -> Lang:
         """Language of str(e) (or of e itself when it is a str)."""
-        if isinstance(e, ast.Name) and e.id in env:
+        if isinstance(e, ast.Name) and e.id in env and isinstance(env[e.id], Lang):
             return env[e.id]
         ts = self.types(fi, e)
         if isinstance(e, ast.Name) and e.id in at:
